@@ -24,7 +24,7 @@ def run(tier, seed):
                      simulate=40 if q else 200, depth=600))
     # a deferred callback (priority NPrio/2) scheduled from inside a running lower-priority callback preempts the rest of that queue
     gens.append(dict(name="C03_defer_prio",
-                     consts=ec.consts({1, 3}, {"defer", "act", "script", "loop", "prio", "deferpat"}, 6, scriptops={"defer"}, durs=(0,), nd=4)))
+                     consts=ec.consts({1, 3}, {"defer", "act", "script", "loop", "prio", "deferpat"}, 6, scriptops={"defer", "once"}, durs=(0,), nd=4)))
     # max_dispatch_interval as a time limit: callbacks that take time (script op adv) end the pass over a limited queue once
     # the interval is used up; the loop's cached time (tv_cache) is what event_add / persist re-scheduling inside callbacks see
     for (mi, mcb, lp) in ([(0, 0, 1), (1, 0, 0)] if q else [(1, 0, 0), (0, 0, 1), (2, 2, 0), (3, 0, 1)]):
